@@ -13,6 +13,26 @@ PST = lambda v: {"kind": "pstringer", "v": v}
 
 K = lambda kind, v: {"kind": kind, "v": str(v)}
 
+
+def wrap64(z):
+    """Go's int: the 64-bit two's complement value an arithmetic result wraps to"""
+    return (z + 2 ** 63) % 2 ** 64 - 2 ** 63
+
+
+def quot(a, b):
+    """Go's integer division (truncation towards zero)"""
+    q = abs(a) // abs(b)
+    return q if (a >= 0) == (b >= 0) else -q
+
+
+def add_replicas(o, R):
+    """the replica count an add operation asks for (before clamping to 0..h.replicas)"""
+    return R if o[0] == "add" else o[2] if o[0] == "addr" else quot(wrap64(R * o[2]), 100)
+
+
+BIG = [2 ** 62, 2 ** 63 - 1, -2 ** 63, -2 ** 62, 92233720368547759, 92233720368547758, 184467440737095517,
+       184467440737095518, 2 ** 53 + 1, 61489146912365173, 10 ** 18, -10 ** 18]
+
 # names whose virtual-node strings repr+itoa(i) coincide ("1"+"10" == "11"+"0"), and equal reprs
 AMBIGUOUS = [S("1"), S("11"), S("12"), S("2"), S("node1"), S("node11"), S("node12"), S("node2"),
              S("a"), S("a1"), I(1), I(11), I(2), ST("1"), ST("node1"), I64(11), PST("node11"), S(""),
@@ -206,6 +226,7 @@ class C15(Property):
             nodes = rng.sample(pool, rng.randint(2, 6))
             R = rng.choice([0, 0, 0, 0, 50, 120, 150])
             Reff = max(R, 100)
+            bigw = rng.random() < 0.1   # weights whose product with h.replicas leaves Go's int: judged by agreement only
             ops = []
             for _ in range(rng.randint(6, 22)):
                 k = rng.randrange(len(nodes))
@@ -213,9 +234,9 @@ class C15(Property):
                 if x < 0.3:
                     ops.append(["add", k])
                 elif x < 0.55:
-                    ops.append(["addr", k, rng.choice(REPLICAS + [Reff, Reff - 1, Reff + 1])])
+                    ops.append(["addr", k, rng.choice(REPLICAS + [Reff, Reff - 1, Reff + 1] + (BIG if rng.random() < 0.15 else []))])
                 elif x < 0.8:
-                    ops.append(["addw", k, rng.choice(WEIGHTS)])
+                    ops.append(["addw", k, rng.choice(WEIGHTS + (BIG if bigw and rng.random() < 0.4 else []))])
                 else:
                     ops.append(["remove", k])
             cases.append({"hash": hk, "mod": mod, "r": R, "nodes": nodes, "ops": ops, "probes": probes(rng, 20)})
@@ -306,6 +327,11 @@ class C15(Property):
             k = rng.choice([1, 2, nsrv, nsrv, nsrv])
             srv = rng.sample(range(nsrv), min(k, nsrv))
             nodes = [[sv, rng.choice(CLUSTER_WEIGHTS)] for sv in srv]
+            if len(nodes) > 1 and rng.random() < 0.12:
+                # a weight whose product with h.replicas wraps Go's int: 0, 1 or all virtual nodes (one per
+                # instance: TotalWeights must not overflow; not on a single-node cache, which has no ring)
+                nodes[rng.randrange(len(nodes))][1] = rng.choice([92233720368547759, 184467440737095518,
+                                                                 92233720368547758, 2 ** 62, -5, -2 ** 62])
             if sum(max(w, 0) for _, w in nodes) <= 0:
                 nodes[0][1] = 100
             insts.append({"kind": kind, "nodes": nodes})
@@ -317,6 +343,9 @@ class C15(Property):
                 tag += "ключ\u00e9\u4e2d/"
             if kind == "cache":
                 skeys += [{"inst": i, "k": "c%d:%s%d" % (i, tag, j)} for j in range(rng.randint(6, 12))]
+                if rng.random() < 0.15 and not any(k["k"] in ("", "*") for k in skeys):
+                    # sentinel data as keys: the empty key, and the not-found placeholder's text
+                    skeys += [{"inst": i, "k": ""}, {"inst": i, "k": "*"}]
             else:
                 skeys += self._kv_keys(i, tag, rng.choice([1, 2]))
         mine = lambda i: [q for q, k in enumerate(skeys) if k["inst"] == i]
@@ -391,9 +420,24 @@ class C15(Property):
                 "probes": [S(k) for k in keys]}
 
     def execute(self, cases, ctx):
-        rc, out, res = vlib.go_run(self.bin, cases, tag="c15", timeout=600)
-        if rc != 0 or len(res) != len(cases):
-            raise ExecError("c15 executor rc=%s: %s" % (rc, out[-2000:]))
+        # one process per 300 cases: the redis clients, their pools and the Stat goroutines of go-zero live as
+        # long as the process, and the quiescence census after a tick walks every goroutine
+        def wire(c):
+            # JSON numbers reach the executor as float64: integers beyond 2^53 travel as strings
+            if not any(len(o) > 2 and isinstance(o[2], int) and abs(o[2]) >= 2 ** 53 for o in c.get("ops") or []):
+                return c
+            c = dict(c)
+            c["ops"] = [[o[0], o[1], str(o[2])] if len(o) > 2 and isinstance(o[2], int) and abs(o[2]) >= 2 ** 53 else o
+                        for o in c["ops"]]
+            return c
+
+        res = []
+        for i in range(0, len(cases), 300):
+            chunk = [wire(c) for c in cases[i:i + 300]]
+            rc, out, r = vlib.go_run(self.bin, chunk, tag="c15", timeout=600)
+            if rc != 0 or len(r) != len(chunk):
+                raise ExecError("c15 executor rc=%s: %s" % (rc, out[-2000:]))
+            res += r
         for r in res:
             if r.get("err"):
                 raise ExecError("c15 executor: case %s: %s" % (r.get("id"), r["err"]))
@@ -508,16 +552,21 @@ class C15(Property):
             if o[0] == "remove":
                 live.pop(rp, None)
             else:
-                r = R if o[0] == "add" else o[2] if o[0] == "addr" else int(R * o[2] / 100)
                 live.pop(rp, None)
-                live[rp] = (max(0, min(r, R)), o[1])
+                live[rp] = (self._eff(o, R), o[1])
             if not row_ok(row):
                 return False
         return len(obs["gets"]) == len(case["ops"]) + 1
 
+    def _exhibits(self):
+        if not hasattr(self, "_exh"):
+            import json
+            with open(os.path.join(vlib.ROOT, "corpus", "C15", "known_exhibits.json")) as f:
+                self._exh = json.load(f)
+        return self._exh
+
     def _eff(self, o, R):
-        r = R if o[0] == "add" else o[2] if o[0] == "addr" else int(R * o[2] / 100)
-        return max(0, min(r, R))
+        return max(0, min(add_replicas(o, R), R))
 
     def _order_fail_sites(self, case, obs):
         """Mirror of the order clauses of Check.hist_ok on the observations: [(step, probe, earlier step or None)]
@@ -573,7 +622,9 @@ class C15(Property):
         """'collision-bucket-insertion-order' — only for a history that really contains what the entry
         describes.  All of:
         * a ring history marked strict (generated histories on colliding universes are judged by the clauses that
-          hold for every hash only, so they can never be excused), under the default hash;
+          hold for every hash only, so they can never be excused), under the default hash, whose nodes, operations,
+          probes AND observed answers are exactly those of the committed table corpus/C15/known_exhibits.json
+          (recorded on the unchanged tree);
         * every answer is still an owner of the successor slot, none iff no live virtual node, no panic
           (`_core_ok`): membership, removed-never-returned, none-iff-empty hold;
         * the order clauses fail somewhere, and EVERY place where they fail is a probe whose successor slot is,
@@ -582,6 +633,13 @@ class C15(Property):
         An order dependence anywhere else — a slot with one owner, or a slot shared only by hash value — is a
         VIOLATION."""
         if case.get("kind") or not case.get("strict") or case.get("hash") != "murmur" or self._cf(obs):
+            return None
+        # the exact failing shape of the UNCHANGED tree, from the committed table corpus/C15/known_exhibits.json:
+        # same nodes, operations, probes, and exactly the answers recorded there (real murmur3, fixed names:
+        # deterministic).  Any other answer in a strict history — also another wrong answer inside a shared
+        # slot — is not this finding.
+        if not any(e["nodes"] == case["nodes"] and e["r"] == case["r"] and e["ops"] == case["ops"] and
+                   e["probes"] == case["probes"] and e["gets"] == obs["gets"] for e in self._exhibits()):
             return None
         if not self._core_ok(case, obs):
             return None
@@ -613,8 +671,7 @@ class C15(Property):
             if o[0] == "remove":
                 live.pop(rp, None)
             else:
-                r = R if o[0] == "add" else o[2] if o[0] == "addr" else int(R * o[2] / 100)
-                live[rp] = max(0, min(r, R))
+                live[rp] = self._eff(o, R)
         return False
 
     # ---- evidence ------------------------------------------------------------
@@ -713,6 +770,10 @@ class C15(Property):
             fs.append("shape:F18-remove-on-low-weight-node-with-foreign-hash")
         if case.get("strict"):
             fs.append("strict_order_clauses")
+        if any(o[0] == "addw" and not -2 ** 63 <= obs["r"] * o[2] < 2 ** 63 for o in case["ops"]):
+            fs.append("weight_product_overflows_int64(judged_by_agreement_only)")
+        if any(o[0] in ("addw", "addr") and abs(o[2]) >= 2 ** 53 for o in case["ops"]):
+            fs.append("huge_replicas_or_weight")
         return fs
 
     def describe_failure(self, case, obs):
